@@ -19,6 +19,51 @@ pub enum QOp {
     ConsumeWithErr,
     FillBuf,
     ClearButLast,
+    /// write of BIG[k] bytes (sizes around the 64 KiB mark, where buffers are usually re-allocated)
+    WriteBig(u8),
+    /// consume of BIG[k] bytes
+    ConsumeBig(u8),
+}
+
+pub const BIG: [usize; 2] = [65536, 70001];
+
+/// the alphabet of the second pass: one-byte and very large operations
+pub fn big_ops() -> Vec<QOp> {
+    vec![
+        QOp::Write(1),
+        QOp::WriteBig(0),
+        QOp::WriteBig(1),
+        QOp::Flush,
+        QOp::Consume(1),
+        QOp::ConsumeBig(0),
+        QOp::Read(5),
+        QOp::ClearButLast,
+    ]
+}
+
+fn write_size(op: &QOp) -> Option<usize> {
+    match op {
+        QOp::Write(k) => Some(*k as usize),
+        QOp::WriteBig(k) => Some(BIG[*k as usize]),
+        _ => None,
+    }
+}
+
+fn consume_size(op: &QOp) -> Option<usize> {
+    match op {
+        QOp::Consume(m) | QOp::ConsumeWith(m) => Some(*m as usize),
+        QOp::ConsumeBig(k) => Some(BIG[*k as usize]),
+        _ => None,
+    }
+}
+
+/// at most the first 24 bytes of a buffer, for messages
+fn short(b: &[u8]) -> String {
+    if b.len() <= 24 {
+        format!("{:?}", b)
+    } else {
+        format!("{:?}.. ({} bytes)", &b[..24], b.len())
+    }
 }
 
 pub fn all_ops() -> Vec<QOp> {
@@ -47,7 +92,7 @@ pub fn op_json(op: &QOp) -> Value {
 }
 
 pub fn parse_op(s: &str) -> Option<QOp> {
-    all_ops().into_iter().find(|o| format!("{:?}", o) == s)
+    all_ops().into_iter().chain(big_ops()).find(|o| format!("{:?}", o) == s)
 }
 
 struct Run {
@@ -76,11 +121,13 @@ fn drain(queue: &mut IOQueue) -> (Vec<u8>, Vec<usize>) {
 /// apply ops to the real queue only (for replicas)
 fn apply_real(queue: &mut IOQueue, counter: &mut u8, op: &QOp) {
     match op {
-        QOp::Write(k) => {
-            let buf: Vec<u8> = (0..*k).map(|i| counter.wrapping_add(i)).collect();
-            *counter = counter.wrapping_add(*k);
+        QOp::Write(_) | QOp::WriteBig(_) => {
+            let k = write_size(op).unwrap();
+            let buf: Vec<u8> = (0..k).map(|i| counter.wrapping_add(i as u8)).collect();
+            *counter = counter.wrapping_add(k as u8);
             let _ = queue.write(&buf);
         }
+        QOp::ConsumeBig(_) => queue.consume(consume_size(op).unwrap()),
         QOp::Flush => {
             let _ = queue.flush();
         }
@@ -112,9 +159,10 @@ pub fn step(hist: &[QOp]) -> (Option<u128>, Vec<(String, String)>) {
         let last = i + 1 == hist.len();
         let mut local: Vec<(String, String)> = vec![];
         match op {
-            QOp::Write(k) => {
-                let buf: Vec<u8> = (0..*k).map(|j| r.counter.wrapping_add(j)).collect();
-                r.counter = r.counter.wrapping_add(*k);
+            QOp::Write(_) | QOp::WriteBig(_) => {
+                let k = write_size(op).unwrap();
+                let buf: Vec<u8> = (0..k).map(|j| r.counter.wrapping_add(j as u8)).collect();
+                r.counter = r.counter.wrapping_add(k as u8);
                 match r.queue.write(&buf) {
                     Ok(n) if n == buf.len() => {}
                     other => local.push(("write-result".into(), format!("write of {} bytes returned {:?}", buf.len(), other))),
@@ -134,20 +182,20 @@ pub fn step(hist: &[QOp]) -> (Option<u128>, Vec<(String, String)>) {
                         } else {
                             let expect = r.model.consume(size);
                             if buf[..size] != expect[..] {
-                                local.push(("read-bytes".into(), format!("read returned {:?}, next pending bytes are {:?}", &buf[..size], expect)));
+                                local.push(("read-bytes".into(), format!("read returned {}, next pending bytes are {}", short(&buf[..size]), short(&expect))));
                             }
                         }
                     }
                     Err(e) => local.push(("read-error".into(), format!("read failed: {e}"))),
                 }
             }
-            QOp::Consume(m) | QOp::ConsumeWith(m) => {
-                let m = *m as usize;
+            QOp::Consume(_) | QOp::ConsumeWith(_) | QOp::ConsumeBig(_) => {
+                let m = consume_size(op).unwrap();
                 let avail = r.queue.as_slice().len();
                 // enabled only when m <= avail (see `enabled`)
                 if m <= avail {
                     match op {
-                        QOp::Consume(_) => r.queue.consume(m),
+                        QOp::Consume(_) | QOp::ConsumeBig(_) => r.queue.consume(m),
                         _ => match r.queue.consume_with(|s| if s.len() >= m { Ok::<usize, ()>(m) } else { Err(()) }) {
                             Ok(n) if n == m => {}
                             other => local.push(("consume_with-result".into(), format!("consume_with({m}) returned {:?}", other))),
@@ -166,7 +214,7 @@ pub fn step(hist: &[QOp]) -> (Option<u128>, Vec<(String, String)>) {
                     let s = s.to_vec();
                     let pend: Vec<u8> = r.model.pending.iter().take(s.len()).map(|(b, _)| *b).collect();
                     if s != pend {
-                        local.push(("fill_buf".into(), format!("fill_buf returned {:?}, pending bytes start with {:?}", s, pend)));
+                        local.push(("fill_buf".into(), format!("fill_buf returned {}, pending bytes start with {}", short(&s), short(&pend))));
                     }
                 }
                 Err(e) => local.push(("fill_buf-error".into(), format!("{e}"))),
@@ -202,7 +250,7 @@ pub fn step(hist: &[QOp]) -> (Option<u128>, Vec<(String, String)>) {
         let s = r.queue.as_slice();
         let pend: Vec<u8> = r.model.pending.iter().take(s.len()).map(|(b, _)| *b).collect();
         if s != pend.as_slice() || s.len() > r.model.len() {
-            local.push(("as_slice".into(), format!("as_slice() = {:?}, pending bytes start with {:?}", s, pend)));
+            local.push(("as_slice".into(), format!("as_slice() = {}, pending bytes start with {}", short(s), short(&pend))));
         }
         if last {
             problems = local;
@@ -224,7 +272,14 @@ pub fn step(hist: &[QOp]) -> (Option<u128>, Vec<(String, String)>) {
     let (bytes, chunks) = drain(&mut replica);
     let pend: Vec<u8> = r.model.pending.iter().map(|(b, _)| *b).collect();
     if problems.is_empty() && bytes != pend {
-        problems.push(("drain".into(), format!("draining the queue yields {:?}, the bytes written and not yet consumed/dropped are {:?}", bytes, pend)));
+        let at = bytes.iter().zip(pend.iter()).position(|(a, b)| a != b).unwrap_or(bytes.len().min(pend.len()));
+        problems.push((
+            "drain".into(),
+            format!(
+                "draining the queue yields {} bytes, {} bytes were written and not yet consumed/dropped; first difference at offset {at}: {} vs {}",
+                bytes.len(), pend.len(), short(&bytes[at..]), short(&pend[at..])
+            ),
+        ));
     }
     if !problems.is_empty() {
         return (None, problems);
@@ -254,8 +309,8 @@ pub fn enabled(hist: &[QOp], ops: &[QOp], cap: usize) -> Vec<usize> {
     ops.iter()
         .enumerate()
         .filter(|(_, op)| match op {
-            QOp::Write(k) => pending + *k as usize <= cap,
-            QOp::Consume(m) | QOp::ConsumeWith(m) => (*m as usize) <= avail,
+            QOp::Write(_) | QOp::WriteBig(_) => pending + write_size(op).unwrap() <= cap,
+            QOp::Consume(_) | QOp::ConsumeWith(_) | QOp::ConsumeBig(_) => consume_size(op).unwrap() <= avail,
             _ => true,
         })
         .map(|(i, _)| i)
@@ -263,7 +318,15 @@ pub fn enabled(hist: &[QOp], ops: &[QOp], cap: usize) -> Vec<usize> {
 }
 
 pub fn explore(ctx: &Ctx, depth: usize, cap: usize, viol: &Violations, samples: &Samples) -> BfsStats {
-    let ops = all_ops();
+    explore_with(ctx, all_ops(), depth, cap, viol, samples)
+}
+
+/// second pass: one-byte and >= 64 KiB operations
+pub fn explore_big(ctx: &Ctx, depth: usize, cap: usize, viol: &Violations, samples: &Samples) -> BfsStats {
+    explore_with(ctx, big_ops(), depth, cap, viol, samples)
+}
+
+fn explore_with(ctx: &Ctx, ops: Vec<QOp>, depth: usize, cap: usize, viol: &Violations, samples: &Samples) -> BfsStats {
     bfs_with(
         ctx,
         depth,
